@@ -203,8 +203,7 @@ class KSFunction(Aggregation):
         super()._prepare(scaling, active_set)
 
     def aggregation_function(self, x):
-        return 1/self.rho * np.log(np.sum(np.exp(self.rho * x)))
+        return 1/self.rho * spsp.logsumexp(self.rho * x)
 
     def aggregation_derivative(self, x):
-        erx = np.exp(self.rho * x)
-        return erx / np.sum(erx)
+        return spsp.softmax(self.rho * x)
